@@ -22,7 +22,13 @@ def reference(spec):
     nxt, rew, prob = RP.forest_tables(spec["problem"])
     kw = spec["kw"]
     case = dict(tables=(nxt, rew, prob), kind=spec["solver"], eps=kw["epsilon"], gamma=kw.get("gamma", 1.0), test=kw.get("convergence_test", "span"), period=kw.get("period"), init="zero")
-    m = RefMachine(case, None)
+    layout = None
+    if spec["solver"] == "savi":
+        S_, b_ = nxt.shape[0], kw.get("max_batch_size", 1024)
+        b_ = min(b_, S_)
+        nb_ = -(-S_ // b_)
+        layout = (1, nb_, b_, nb_ * b_ - S_)
+    m = RefMachine(case, layout)
     states = [dict(values=m.V.copy(), gain=m.gain)]
     conv_at = None
     for _ in range(200):
